@@ -315,17 +315,27 @@ func validDoc(r *gen.Rand, cols []string, gens []func(*gen.Rand) string, nrows i
 	return buf.Bytes()
 }
 
-func gInt(r *gen.Rand) string    { return strconv.Itoa(r.Range(-99, 99)) }
-func gFloat(r *gen.Rand) string  { return strconv.FormatFloat(gen.Round2(r.FRange(-50, 500)), 'g', -1, 64) }
-func gBool(r *gen.Rand) string   { return []string{"true", "false", "1", "0", "T"}[r.Intn(5)] }
-func gU8(r *gen.Rand) string     { return strconv.Itoa(r.Range(0, 255)) }
-func gStr(r *gen.Rand) string    { return []string{"x", "a b", "q,r", `he said "no"`, "", "é", "line\nbreak"}[r.Intn(7)] }
-func gDate(r *gen.Rand) string   { return time.Date(2020, 1, 1+r.Intn(300), 0, 0, 0, 0, time.UTC).Format("2006-01-02") }
-func gStamp(r *gen.Rand) string  { return time.Date(2021, 3, 1+r.Intn(20), r.Intn(24), r.Intn(60), 0, 0, time.UTC).Format(helper.DefaultDateTimeFormat) }
-func gU16(r *gen.Rand) string    { return strconv.Itoa(r.Range(0, 65535)) }
-func gI8(r *gen.Rand) string     { return strconv.Itoa(r.Range(-128, 127)) }
-func gF32(r *gen.Rand) string    { return strconv.FormatFloat(float64(float32(r.FRange(-9, 9))), 'g', -1, 32) }
-func gInt64(r *gen.Rand) string  { return strconv.FormatInt(int64(r.U64()>>1), 10) }
+func gInt(r *gen.Rand) string { return strconv.Itoa(r.Range(-99, 99)) }
+func gFloat(r *gen.Rand) string {
+	return strconv.FormatFloat(gen.Round2(r.FRange(-50, 500)), 'g', -1, 64)
+}
+func gBool(r *gen.Rand) string { return []string{"true", "false", "1", "0", "T"}[r.Intn(5)] }
+func gU8(r *gen.Rand) string   { return strconv.Itoa(r.Range(0, 255)) }
+func gStr(r *gen.Rand) string {
+	return []string{"x", "a b", "q,r", `he said "no"`, "", "é", "line\nbreak"}[r.Intn(7)]
+}
+func gDate(r *gen.Rand) string {
+	return time.Date(2020, 1, 1+r.Intn(300), 0, 0, 0, 0, time.UTC).Format("2006-01-02")
+}
+func gStamp(r *gen.Rand) string {
+	return time.Date(2021, 3, 1+r.Intn(20), r.Intn(24), r.Intn(60), 0, 0, time.UTC).Format(helper.DefaultDateTimeFormat)
+}
+func gU16(r *gen.Rand) string { return strconv.Itoa(r.Range(0, 65535)) }
+func gI8(r *gen.Rand) string  { return strconv.Itoa(r.Range(-128, 127)) }
+func gF32(r *gen.Rand) string {
+	return strconv.FormatFloat(float64(float32(r.FRange(-9, 9))), 'g', -1, 32)
+}
+func gInt64(r *gen.Rand) string { return strconv.FormatInt(int64(r.U64()>>1), 10) }
 
 // corrupt applies one grammar-aware corruption to a valid document.
 func corrupt(r *gen.Rand, doc []byte) []byte {
@@ -399,20 +409,40 @@ type csvShape struct {
 func csvShapes() []csvShape {
 	return []csvShape{
 		{"shape1", []string{"A"}, []func(*gen.Rand) string{gStr},
-			func(cc *run.Case, cs *mon.Census, d []byte, h bool, f string) bool { return csvCase[shape1](cc, cs, "shape1", d, h, f) },
-			func(cc *run.Case, cs *mon.Census, d []byte, cut int, h bool) bool { return csvFaultCase[shape1](cc, cs, "shape1", d, cut, h) }},
+			func(cc *run.Case, cs *mon.Census, d []byte, h bool, f string) bool {
+				return csvCase[shape1](cc, cs, "shape1", d, h, f)
+			},
+			func(cc *run.Case, cs *mon.Census, d []byte, cut int, h bool) bool {
+				return csvFaultCase[shape1](cc, cs, "shape1", d, cut, h)
+			}},
 		{"shape2", []string{"I", "F"}, []func(*gen.Rand) string{gInt, gFloat},
-			func(cc *run.Case, cs *mon.Census, d []byte, h bool, f string) bool { return csvCase[shape2](cc, cs, "shape2", d, h, f) },
-			func(cc *run.Case, cs *mon.Census, d []byte, cut int, h bool) bool { return csvFaultCase[shape2](cc, cs, "shape2", d, cut, h) }},
+			func(cc *run.Case, cs *mon.Census, d []byte, h bool, f string) bool {
+				return csvCase[shape2](cc, cs, "shape2", d, h, f)
+			},
+			func(cc *run.Case, cs *mon.Census, d []byte, cut int, h bool) bool {
+				return csvFaultCase[shape2](cc, cs, "shape2", d, cut, h)
+			}},
 		{"shape3", []string{"B", "U", "S"}, []func(*gen.Rand) string{gBool, gU8, gStr},
-			func(cc *run.Case, cs *mon.Census, d []byte, h bool, f string) bool { return csvCase[shape3](cc, cs, "shape3", d, h, f) },
-			func(cc *run.Case, cs *mon.Census, d []byte, cut int, h bool) bool { return csvFaultCase[shape3](cc, cs, "shape3", d, cut, h) }},
+			func(cc *run.Case, cs *mon.Census, d []byte, h bool, f string) bool {
+				return csvCase[shape3](cc, cs, "shape3", d, h, f)
+			},
+			func(cc *run.Case, cs *mon.Census, d []byte, cut int, h bool) bool {
+				return csvFaultCase[shape3](cc, cs, "shape3", d, cut, h)
+			}},
 		{"shape6", []string{"Date", "Open", "High", "Low", "Close", "Volume"}, []func(*gen.Rand) string{gDate, gFloat, gFloat, gFloat, gFloat, gFloat},
-			func(cc *run.Case, cs *mon.Census, d []byte, h bool, f string) bool { return csvCase[shape6](cc, cs, "shape6", d, h, f) },
-			func(cc *run.Case, cs *mon.Census, d []byte, cut int, h bool) bool { return csvFaultCase[shape6](cc, cs, "shape6", d, cut, h) }},
+			func(cc *run.Case, cs *mon.Census, d []byte, h bool, f string) bool {
+				return csvCase[shape6](cc, cs, "shape6", d, h, f)
+			},
+			func(cc *run.Case, cs *mon.Census, d []byte, cut int, h bool) bool {
+				return csvFaultCase[shape6](cc, cs, "shape6", d, cut, h)
+			}},
 		{"shape8", []string{"Id", "Name", "X", "Ok", "N", "When", "tag name", "Z"}, []func(*gen.Rand) string{gInt64, gStr, gF32, gBool, gU16, gStamp, gStr, gI8},
-			func(cc *run.Case, cs *mon.Census, d []byte, h bool, f string) bool { return csvCase[shape8](cc, cs, "shape8", d, h, f) },
-			func(cc *run.Case, cs *mon.Census, d []byte, cut int, h bool) bool { return csvFaultCase[shape8](cc, cs, "shape8", d, cut, h) }},
+			func(cc *run.Case, cs *mon.Census, d []byte, h bool, f string) bool {
+				return csvCase[shape8](cc, cs, "shape8", d, h, f)
+			},
+			func(cc *run.Case, cs *mon.Census, d []byte, cut int, h bool) bool {
+				return csvFaultCase[shape8](cc, cs, "shape8", d, cut, h)
+			}},
 	}
 }
 
@@ -518,6 +548,8 @@ func refTiingo(doc []byte) []asset.Snapshot {
 	return out
 }
 
+var logCountSeq atomic.Int64
+
 func tiingoCase(cc *run.Case, census *mon.Census, status int, body []byte) bool {
 	cc.Desc(map[string]any{"reader": "tiingo", "status": status, "body": string(body)})
 	logCount.Store(0)
@@ -527,10 +559,35 @@ func tiingoCase(cc *run.Case, census *mon.Census, status int, body []byte) bool 
 	http.DefaultTransport = ft
 	defer func() { http.DefaultTransport = old }()
 	repo := asset.NewTiingoRepository("key")
-	repo.BaseURL = "http://tiingo.invalid"
 	repo.Logger = discardLogger
-	detail := map[string]any{"status": status, "body": string(body)}
-	c, err := repo.GetSince("aapl", day0)
+	viaFactory := logCountSeq.Add(1)%3 == 0
+	if viaFactory {
+		// as the command line tools obtain it; its own (default) logger is kept
+		fr, ferr := asset.NewRepository(asset.TiingoRepositoryBuilderName, "key")
+		tr, ok := fr.(*asset.TiingoRepository)
+		if ferr != nil || !ok {
+			cc.Viol("", fmt.Sprintf("asset.NewRepository(%q) did not return a Tiingo repository: %T, %v", asset.TiingoRepositoryBuilderName, fr, ferr), nil)
+			return false
+		}
+		repo = tr
+	}
+	repo.BaseURL = "http://tiingo.invalid"
+	detail := map[string]any{"status": status, "body": string(body), "repository_from_factory": viaFactory}
+	if _, aerr := repo.Assets(); aerr == nil {
+		cc.Viol("", "Tiingo Assets() (unsupported) returned no error", detail)
+		return false
+	}
+	if aerr := repo.Append("aapl", helper.SliceToChan([]*asset.Snapshot{})); aerr == nil {
+		cc.Viol("", "Tiingo Append() (unsupported) returned no error", detail)
+		return false
+	}
+	var c <-chan *asset.Snapshot
+	var err error
+	if logCountSeq.Load()%2 == 0 {
+		c, err = repo.GetSince("aapl", day0)
+	} else {
+		c, err = repo.Get("aapl") // = GetSince(2000-01-01)
+	}
 	cc.Count("http_responses", 1)
 	if status != 200 {
 		if err == nil {
